@@ -104,9 +104,14 @@ Definition set_spec (w : Z) (before : list fmtstr) (ri ci : index) (v : value) (
       let spills :=
         existsb (fun p => Nat.ltb (c1 - c0) (length (snd p)) && Nat.ltb c1 (length (fst p)))
                 (combine (firstn (r1 - r0) (skipn r0 (rows_b ++ repeat [] (r1 - length rows_b)))) items) in
+      (* a bare str as the block of a region wider than one column is not one of the block forms the
+         property speaks of (lists of str / FmtStr, FSArray); the code refuses it: only "an error changes
+         nothing" (above) is demanded *)
+      let str_for_wide := value_is_str v && Nat.ltb 1 (c1 - c0) in
       if negb nonempty then
         (* empty region: nothing but the downward growth happens, no error *)
         (if in_width then negb raised && only_grown w before after else true)
+      else if str_for_wide then true
       else if in_width && count_ok && fits then
         negb raised &&
         grid_eqb (grid_rows w after)
